@@ -209,6 +209,10 @@ def client_id_class_pick(r, model, cls):
         if not model.out:
             return None
         base = pick_sorted(r, model.out)
+        hi = [i for i in model.out if 128 <= i <= 255]
+        if hi and r.random() < 0.5:
+            # an id whose one-octet two's complement reading is negative: the alias is the negative value itself
+            return r.choice(sorted(hi)) - 256
         return base + r.choice([2 ** 32, 2 ** 40, -(2 ** 32), 2 ** 16, 2 ** 8, -(2 ** 8), -(2 ** 16), 2 ** 64])
     raise ValueError(cls)
 
